@@ -10,9 +10,12 @@ From SP Require Import Model.Num Model.Arrow Model.PointKernels.
 Import ListNotations.
 
 (* ------------------------------------------------------------------ *)
-(* outcomes: a value, or the exception an empty (sub-)line provokes:
-   builtin min([]) -> ValueError in Point._intersects_line,
-   numba min(empty array) in _perform_intersects_line *)
+(* outcomes: a value, or the exception min() of an empty sequence provokes
+   (builtin min([]) -> ValueError in Point._intersects_line, numba min(empty
+   array) in _perform_intersects_line).  Since the code skips (sub-)lines
+   without vertices (len(xs) == 0: continue) this only remains for a slice that
+   holds a single value (xs = [v], ys = []), which no array built by the library
+   contains (inner slices are even: wf). *)
 Inductive outcome (A : Type) : Type :=
 | Value (v : A)
 | RaisesEmptyLine.
@@ -128,7 +131,8 @@ Fixpoint sc_lines (x y : Z) (lines : list (list Z)) : outcome bool :=
   | [] => Value false
   | flat :: rest =>
       match evens flat, odds flat with
-      | [], _ | _, [] => RaisesEmptyLine               (* min(xs) / min(ys) of nothing *)
+      | [], _ => sc_lines x y rest                     (* len(xs) == 0: continue *)
+      | _ :: _, [] => RaisesEmptyLine                  (* min(ys) of nothing *)
       | hx :: tx, hy :: ty =>
           let xs := hx :: tx in let ys := hy :: ty in
           let bounds := (lmin hx tx, lmin hy ty, lmax hx tx, lmax hy ty) in
@@ -146,7 +150,8 @@ Fixpoint ar_lines (x y : Z) (lines : list (list Z)) (acc : bool) : outcome bool 
   | [] => Value acc
   | flat :: rest =>
       match evens flat, odds flat with
-      | [], _ | _, [] => RaisesEmptyLine
+      | [], _ => ar_lines x y rest acc                 (* len(line_xs) == 0: continue *)
+      | _ :: _, [] => RaisesEmptyLine
       | hx :: tx, hy :: ty =>
           let xs := hx :: tx in let ys := hy :: ty in
           let '(b0, b1, b2, b3) := (lmin hx tx, lmin hy ty, lmax hx tx, lmax hy ty) in
